@@ -100,6 +100,12 @@ RIEMANN_TABLE = {
     "leblanc": dict(rl=1.0, ul=0.0, pl=2.0 / 3.0 * 1e-1, gl=G53, rr=1e-2, ur=0.0, pr=2.0 / 3.0 * 1e-10, gr=G53, xd0=0.3, t=0.5),
     "lax": dict(rl=0.445, ul=0.698, pl=3.528, gl=1.4, rr=0.5, ur=0.0, pr=0.571, gr=1.4, xd0=0.5, t=0.15),
     "two_gamma": dict(rl=1.0, ul=0.0, pl=2.0, gl=2.0, rr=0.01, ur=0.0, pr=1.0, gr=1.4, xd0=0.3, t=0.2),
+    # three pattern roots that the package's table lacks (states only; added after the seeded change S-C02-2): two states that
+    # differ ONLY in velocity -- colliding (shock-contact-shock) and receding (double rarefaction) -- and a moving
+    # shock-contact-rarefaction with a velocity difference
+    "collision_equal_states": dict(rl=1.0, ul=1.0, pl=1.0, gl=1.4, rr=1.0, ur=-1.0, pr=1.0, gr=1.4, xd0=0.5, t=0.2),
+    "recession_equal_states": dict(rl=1.0, ul=-0.5, pl=1.0, gl=1.4, rr=1.0, ur=0.5, pr=1.0, gr=1.4, xd0=0.5, t=0.2),
+    "moving_scr": dict(rl=0.125, ul=0.4, pl=0.1, gl=1.4, rr=1.0, ur=0.9, pr=1.0, gr=1.4, xd0=0.5, t=0.2),
 }
 JWL_TABLE = {
     "shyue": dict(rl=1.7, ul=0.0, pl=10.0, gl=1.25, rr=1.0, ur=0.0, pr=0.5, gr=1.25, xmin=0.0, xd0=50.0, xmax=100.0, t=12.0,
@@ -204,7 +210,17 @@ def bbnoh_build(cfg):
     import io
     with contextlib.redirect_stdout(io.StringIO()):
         try:
-            s = c(eos, ic)
+            if (ic["density"], ic["velocity"], ic["pressure"]) == (1, -1, 0) and cfg.get("decoys", True):
+                # the standard Noh state is the wrappers' DEFAULT argument: use it as such, and construct the wrappers of the
+                # two other geometries (also with their defaults) before the solver under test is first evaluated -- the jump
+                # solve must still be for THIS wrapper's geometry (seeded changes S-C06-1 / S-C16-3 / S-C02-3: one dict shared
+                # by the three default arguments)
+                s = c(eos)
+                for other in ("PlanarNohBlackBox", "CylindricalNohBlackBox", "SphericalNohBlackBox"):
+                    if other != cls:
+                        get_class("nohblackboxeos.blackboxnoh." + other)(eos_object(cfg["eos"]))
+            else:
+                s = c(eos, ic)
         except ValueError as e:
             raise hydro_inadmissible(str(e))
         if cfg.get("guess", "default") != "default":
